@@ -638,8 +638,83 @@ def scenario(ctx, name, pre):
                 ctx.outcome("followup-equal")
 
 
+def nested_policy_cells(ctx):
+    """The containment policy for failing change handlers is a stack: after
+    a temporary policy has been pushed and popped again (in every nesting up
+    to depth 3), a failing handler is contained as before: the operation
+    completes and the other handlers run"""
+    import itertools
+    from traits.api import HasTraits as _HT, Int as _Int, List as _L
+    import traits.api as TA
+    import traits.observation.api as OA
+    for api_name, api in (("observe", OA), ("on_trait_change", TA)):
+        for depth in (1, 2, 3):
+            for flags in itertools.product((True, False), repeat=depth):
+                ctx.case({"cell": "nested-policy", "api": api_name,
+                          "pushed": list(flags)})
+                ctx.ev()
+                ctx.tr()
+
+                class M(_HT):
+                    value = _Int
+                    items = _L(_Int)
+                contained = []
+                if api_name == "observe":
+                    api.push_exception_handler(
+                        handler=lambda ev: contained.append(1),
+                        reraise_exceptions=False)
+                else:
+                    api.push_exception_handler(
+                        handler=lambda o, n, old, new: contained.append(1),
+                        reraise_exceptions=False, main=True)
+                try:
+                    for f in flags:
+                        if api_name == "observe":
+                            api.push_exception_handler(reraise_exceptions=f)
+                        else:
+                            api.push_exception_handler(
+                                handler=lambda o, n, old, new: None,
+                                reraise_exceptions=f, main=True)
+                    for _ in flags:
+                        api.pop_exception_handler()
+                    m = M()
+                    seen = []
+
+                    def failing(*a):
+                        raise ValueError("handler fails")
+
+                    def other(*a):
+                        seen.append(1)
+                    if api_name == "observe":
+                        m.observe(failing, "value")
+                        m.observe(other, "value")
+                    else:
+                        m.on_trait_change(failing, "value")
+                        m.on_trait_change(other, "value")
+                    try:
+                        m.value = 5
+                        raised = None
+                    except Exception as exc:
+                        raised = exc
+                finally:
+                    api.pop_exception_handler()
+                if raised is not None or m.value != 5 or seen != [1] or \
+                        contained != [1]:
+                    ctx.violation(
+                        "C19:nested-policy:%s" % api_name,
+                        "after pushing %r temporary %s policies and popping "
+                        "them again, a failing handler: raised %r, value %r, "
+                        "other handler calls %r, outer policy told %r" % (
+                            list(flags), api_name, raised, m.value, seen,
+                            contained),
+                        scenario="nested-policy", pre="fresh", k=depth,
+                        exc="ValueError", site=api_name)
+                else:
+                    ctx.outcome("handler-contained")
+
+
 def shards(tier):
-    out = []
+    out = [{"scenario": "__nested_policy__", "pre": "fresh"}]
     for name in SCENARIOS:
         for pre in ("fresh", "stored"):
             out.append({"scenario": name, "pre": pre})
@@ -647,6 +722,10 @@ def shards(tier):
 
 
 def run_shard(ctx, shard, tier):
+    if shard["scenario"] == "__nested_policy__":
+        nested_policy_cells(ctx)
+        ctx.depth_completed = 1
+        return
     scenario(ctx, shard["scenario"], shard["pre"])
     gc.collect()
     ctx.sample({"scenario": shard["scenario"], "pre": shard["pre"], "k": 1,
@@ -658,7 +737,11 @@ def replay(rec):
     from mc.ctx import Ctx
     ctx = Ctx("C19", None, "quick", 0)
     c = rec.get("case") or rec
-    scenario(ctx, c["scenario"], c["pre"])
+    if c.get("cell") == "nested-policy" or \
+            c.get("scenario") == "nested-policy":
+        nested_policy_cells(ctx)
+    else:
+        scenario(ctx, c["scenario"], c["pre"])
     for v in ctx.violations.values():
         print("  violation:", v["sig"], v["msg"])
     return not ctx.violations
